@@ -74,7 +74,7 @@ func oracleSSNone(t failer, frag uint16, data []byte) (out oracleResult) {
 		t.Fatalf("SIG=C06/ssnone-server-empty-request VERIF-VIOLATION HandleStream returned no error and no request: %s", desc())
 	}
 	res := useAddr(t, recNone, "ssnone-server", req.Addr, "", false)
-	out = oracleResult{true, req.Addr, "", res}
+	out = oracleResult{accepted: true, addr: req.Addr, user: "", use: res}
 	guard(t, recNone, "ssnone-server-tunnel", desc, func() {
 		if frag&0x4000 != 0 {
 			_ = req.Abort(conn.DialResult{Code: conn.DialResultCodeEHOSTUNREACH})
@@ -167,10 +167,121 @@ func FuzzPacketUnpackers(f *testing.F) {
 	for _, i := range thin(len(seeds), 200) {
 		f.Add(sels[i], seeds[i])
 	}
+	// round 6: short datagrams in reused buffers (bit5), one representative per length and protocol/side
+	for i, d := range shortDatagrams() {
+		if i%23 == 0 || len(d) >= 7 && i%5 == 0 {
+			f.Add(uint8(i%7)|32|uint8(i%3)<<6, d)
+		}
+	}
 	f.Fuzz(func(t *testing.T, sel uint8, data []byte) { oraclePacket(t, sel, data) })
 }
 
-// sel: bits0-1 protocol (0 socks5, 1 none, 2/3 direct), bit2 client side, bit3 packet from a foreign source, bit4 direct targetOnly
+// ---- round 6: reused buffers
+//
+// The relays receive into pooled buffers (service/udp_nat*.go: queued packets from a sync.Pool, one buffer per downlink), so
+// after the first packet the bytes behind a datagram are never zero: they are the tail of an earlier - usually valid - packet.
+// sel bit5 puts the datagram into such a buffer, and decides the statement "the result is an error or a payload and address
+// entirely inside the datagram" in two independent ways:
+//   - a model of the wire format written from RFC 1928 section 5/7 (modelPacket): an accepted datagram must contain header and
+//     address completely, and the payload must be exactly the rest of it;
+//   - a metamorphic relation: the result (accepted or not, address, payload position) must not depend on what lies behind the
+//     datagram in the buffer - the same datagram is unpacked again over a 0xAA fill and over a different earlier packet.
+
+// stalePacket is an earlier valid packet of protocol proto (client->server or server->client form) as the relay's buffer still holds it.
+func stalePacket(proto string, variant int) []byte {
+	var addr []byte
+	switch variant % 3 {
+	case 0:
+		addr = socksAddrIP(netip.MustParseAddr("127.0.0.1"), 8080)
+	case 1:
+		addr = socksAddrDomain(strings.Repeat("s", 255), 443)
+	default:
+		addr = socksAddrIP(netip.MustParseAddr("2001:db8::5"), 53)
+	}
+	tail := bytes.Repeat([]byte("earlier-payload "), 40)
+	switch proto {
+	case "socks5":
+		return cat([]byte{0, 0, 0}, addr, tail)
+	case "none":
+		return cat(addr, tail)
+	}
+	return tail
+}
+
+// fillStale makes buf[front:] look like a reused receive buffer: fill 0 = an earlier valid packet (variant), fill 1 = 0xAA bytes,
+// fill 2 = another earlier valid packet; then the datagram is copied over its beginning.
+func fillStale(buf []byte, front int, proto string, clientSide bool, variant, fill int, data []byte) {
+	area := buf[front:]
+	if len(area) > 1024 {
+		area = area[:1024] // the longest header + address is 3+1+1+255+2 bytes; what lies further behind cannot matter
+	}
+	switch fill {
+	case 1:
+		for i := range area {
+			area[i] = 0xAA
+		}
+	default:
+		v := variant
+		if fill == 2 {
+			v++
+		}
+		st := stalePacket(proto, v)
+		if clientSide && v%3 == 1 { // server->client packets never carry a name
+			st = stalePacket(proto, 0)
+		}
+		for i := 0; i < len(area); i += len(st) {
+			copy(area[i:], st)
+		}
+		copy(area, st)
+	}
+	copy(area, data)
+}
+
+// modelPacket says, from the wire format alone, whether data can be a complete message of proto and where its payload starts.
+func modelPacket(proto string, clientSide bool, data []byte) (payloadOff int, ok bool) {
+	hdr := 0
+	switch proto {
+	case "socks5":
+		hdr = 3
+	case "none":
+	default:
+		return 0, true // direct: the datagram is the payload
+	}
+	if len(data) < hdr+1 {
+		return 0, false
+	}
+	if proto == "socks5" && data[2] != 0 {
+		return 0, false // FRAG
+	}
+	a := data[hdr:]
+	var n int
+	switch a[0] {
+	case 1:
+		n = 1 + 4 + 2
+	case 4:
+		n = 1 + 16 + 2
+	case 3:
+		if clientSide || len(a) < 2 || a[1] == 0 {
+			return 0, false // a reply's source is always an IP address; RFC 1928: the name has 1..255 octets
+		}
+		n = 1 + 1 + int(a[1]) + 2
+	default:
+		return 0, false
+	}
+	if len(a) < n {
+		return 0, false
+	}
+	return hdr + n, true
+}
+
+type unpackOutcome struct {
+	ok     bool
+	addr   string
+	ps, pl int
+}
+
+// sel: bits0-1 protocol (0 socks5, 1 none, 2/3 direct), bit2 client side, bit3 packet from a foreign source, bit4 direct targetOnly,
+// bit5 reused buffer (round 6), bits6-7 variant of the earlier packet in the reused buffer
 func oraclePacket(t failer, sel uint8, data []byte) (out oracleResult) {
 	desc := func() string { return fmt.Sprintf("sel=%#x data=%s", sel, hexs(data)) }
 	proto := []string{"socks5", "none", "direct", "direct"}[sel&3]
@@ -191,6 +302,38 @@ func oraclePacket(t failer, sel uint8, data []byte) (out oracleResult) {
 		hr := zerocopy.UDPRelayHeadroom(relayHeadroomMax(), natServer.Info().UnpackerHeadroom)
 		buf := make([]byte, hr.Front+recvSize+hr.Rear)
 		copy(buf[hr.Front:], data)
+		reused := sel&32 != 0
+		if reused {
+			variant := int(sel >> 6)
+			fillStale(buf, hr.Front, proto, false, variant, 0, data)
+			var first unpackOutcome
+			b2 := make([]byte, len(buf))
+			for fill := 0; fill < 3; fill++ {
+				fillStale(b2, hr.Front, proto, false, variant, fill, data)
+				var got unpackOutcome
+				guard(t, recPacket, proto+"-server-unpack", desc, func() {
+					u, err := natServer.NewUnpacker()
+					if err != nil {
+						return
+					}
+					a, s, l, err := u.UnpackInPlace(b2, netip.MustParseAddrPort("127.0.0.1:40000"), hr.Front, len(data))
+					if err == nil {
+						got = unpackOutcome{true, a.String(), s - hr.Front, l}
+					}
+				})
+				off, mok := modelPacket(proto, false, data)
+				if got.ok && (!mok || got.ps != off || got.pl != len(data)-off) {
+					t.Fatalf("SIG=C06/packet-server-beyond-datagram VERIF-VIOLATION %s server unpacker accepted a %d-byte datagram in a reused buffer (fill %d) as target %q payload [%d,+%d); "+
+						"by the wire format the datagram is complete=%v with payload offset %d: %s", proto, len(data), fill, got.addr, got.ps, got.pl, mok, off, desc())
+				}
+				if fill == 0 {
+					first = got
+				} else if got != first {
+					t.Fatalf("SIG=C06/packet-server-depends-on-stale-bytes VERIF-VIOLATION %s server unpacker: the result for a %d-byte datagram depends on the bytes behind it in the buffer: %+v over an earlier packet, %+v with fill %d: %s",
+						proto, len(data), first, got, fill, desc())
+				}
+			}
+		}
 		var (
 			ta     conn.Addr
 			ps, pl int
@@ -213,11 +356,21 @@ func oraclePacket(t failer, sel uint8, data []byte) (out oracleResult) {
 			packer, _ = u.NewPacker()
 		})
 		if uerr != nil || !ta.IsValid() {
+			if reused {
+				short := "long"
+				if len(data) <= 8 {
+					short = fmt.Sprintf("short%d", len(data))
+					recPacket.Label("reused:short-datagrams", 1)
+				}
+				// rejecting the datagram over an earlier valid packet is what this mode is about
+				recPacket.Case(fmt.Sprintf("reused/%s/server/%s/v%d", proto, short, sel>>6), true, "rejected", "side:server", "reused:rejected", "reused:"+proto+"/server")
+				return
+			}
 			recPacket.Case("", false, "rejected", "side:server")
 			return
 		}
 		res := useAddr(t, recPacket, proto+"-packet-server", ta, "", true)
-		out = oracleResult{true, ta, "", res}
+		out = oracleResult{accepted: true, addr: ta, user: "", use: res}
 		relayInPlace(t, recPacket, desc, buf, ta, ps, pl)
 		if packer != nil {
 			guard(t, recPacket, proto+"-server-reply", desc, func() {
@@ -229,7 +382,11 @@ func oraclePacket(t failer, sel uint8, data []byte) (out oracleResult) {
 			})
 		}
 		cls := addrClass(ta)
-		recPacket.Case(proto+"/server/"+cls, res.routed > 0, "accepted", "side:server", "proto:"+proto, "class:"+cls)
+		labels := []string{"accepted", "side:server", "proto:" + proto, "class:" + cls}
+		if reused {
+			labels = append(labels, "reused:accepted", "reused:"+proto+"/server")
+		}
+		recPacket.Case(proto+"/server/"+cls+fmt.Sprint(reused), res.routed > 0, labels...)
 		return
 	}
 
@@ -253,10 +410,41 @@ func oraclePacket(t failer, sel uint8, data []byte) (out oracleResult) {
 	packers := []zerocopy.ServerPacker{direct.Socks5PacketServerPacker{}, direct.ShadowsocksNonePacketServerPacker{},
 		direct.NewDirectPacketServerPackUnpacker(conn.MustAddrFromDomainPort("tunnel.example", 53), false)}
 	accepted := false
+	reused := sel&32 != 0
+	if reused {
+		variant := int(sel >> 6)
+		hr := zerocopy.UDPRelayHeadroom(packers[0].ServerPackerInfo().Headroom, u.ClientUnpackerInfo().Headroom)
+		var first unpackOutcome
+		b2 := make([]byte, hr.Front+recvSize+hr.Rear)
+		for fill := 0; fill < 3; fill++ {
+			fillStale(b2, hr.Front, proto, true, variant, fill, data)
+			var got unpackOutcome
+			guard(t, recPacket, proto+"-client-unpack", desc, func() {
+				a, s, l, err := u.UnpackInPlace(b2, from, hr.Front, len(data))
+				if err == nil {
+					got = unpackOutcome{true, a.String(), s - hr.Front, l}
+				}
+			})
+			off, mok := modelPacket(proto, true, data)
+			if got.ok && (!mok || got.ps != off || got.pl != len(data)-off) {
+				t.Fatalf("SIG=C06/packet-client-beyond-datagram VERIF-VIOLATION %s client unpacker accepted a %d-byte datagram in a reused buffer (fill %d) as source %q payload [%d,+%d); "+
+					"by the wire format the datagram is complete=%v with payload offset %d: %s", proto, len(data), fill, got.addr, got.ps, got.pl, mok, off, desc())
+			}
+			if fill == 0 {
+				first = got
+			} else if got != first {
+				t.Fatalf("SIG=C06/packet-client-depends-on-stale-bytes VERIF-VIOLATION %s client unpacker: the result for a %d-byte datagram depends on the bytes behind it in the buffer: %+v over an earlier packet, %+v with fill %d: %s",
+					proto, len(data), first, got, fill, desc())
+			}
+		}
+	}
 	for _, sp := range packers {
 		hr := zerocopy.UDPRelayHeadroom(sp.ServerPackerInfo().Headroom, u.ClientUnpackerInfo().Headroom)
 		buf := make([]byte, hr.Front+recvSize+hr.Rear)
 		copy(buf[hr.Front:], data)
+		if reused {
+			fillStale(buf, hr.Front, proto, true, int(sel>>6), 0, data)
+		}
 		guard(t, recPacket, proto+"-client-unpack", desc, func() {
 			src, s, l, err := u.UnpackInPlace(buf, from, hr.Front, len(data))
 			if err != nil {
@@ -272,8 +460,62 @@ func oraclePacket(t failer, sel uint8, data []byte) (out oracleResult) {
 			accepted = true
 		})
 	}
+	if reused {
+		short := "long"
+		if len(data) <= 8 {
+			short = fmt.Sprintf("short%d", len(data))
+			recPacket.Label("reused:short-datagrams", 1)
+		}
+		recPacket.Case(fmt.Sprintf("reused/%s/client/%s/v%d/%v", proto, short, sel>>6, accepted), true, map[bool]string{true: "accepted", false: "rejected"}[accepted],
+			"side:client", "proto:"+proto, "reused:"+map[bool]string{true: "accepted", false: "rejected"}[accepted], "reused:"+proto+"/client")
+		return
+	}
 	recPacket.Case(proto+"/client", accepted, map[bool]string{true: "accepted", false: "rejected"}[accepted], "side:client", "proto:"+proto)
 	return
+}
+
+// shortDatagrams enumerates the datagrams of 0..8 bytes the reused-buffer sweep presents to every unpacker: every string of
+// length 0..4 over the bytes that mean something to the parsers (0 = RSV/FRAG, 1/3/4 = ATYP, 0xff = longest name) and, for
+// lengths 5..8, every prefix of a valid packet of each address type plus constant fills and "header + ATYP + length" stubs.
+func shortDatagrams() [][]byte {
+	alpha := []byte{0, 1, 3, 4, 0xff}
+	var out [][]byte
+	var rec func(prefix []byte, n int)
+	rec = func(prefix []byte, n int) {
+		out = append(out, append([]byte(nil), prefix...))
+		if n == 0 {
+			return
+		}
+		for _, c := range alpha {
+			rec(append(prefix, c), n-1)
+		}
+	}
+	rec(nil, 4)
+	valid := [][]byte{
+		cat([]byte{0, 0, 0}, socksAddrIP(netip.MustParseAddr("127.0.0.1"), 53), []byte("pl")),
+		cat([]byte{0, 0, 0}, socksAddrIP(netip.MustParseAddr("::1"), 53)),
+		cat([]byte{0, 0, 0}, socksAddrDomain("a", 53), []byte("pl")),
+		cat([]byte{0, 0, 0}, socksAddrDomain("abc", 0)),
+		cat(socksAddrIP(netip.MustParseAddr("127.0.0.1"), 0), []byte("pl")),
+		socksAddrIP(netip.MustParseAddr("::1"), 53),
+		cat(socksAddrDomain("a", 65535), []byte("payload")),
+		socksAddrDomain("abcdef", 53),
+	}
+	for l := 5; l <= 8; l++ {
+		for _, v := range valid {
+			if len(v) >= l {
+				out = append(out, v[:l])
+			}
+		}
+		for _, c := range alpha {
+			out = append(out, bytes.Repeat([]byte{c}, l))
+		}
+		for _, stub := range [][]byte{{0, 0, 0, 3, 0xff}, {0, 0, 0, 3, 1}, {0, 0, 0, 3, 0}, {0, 0, 0, 1}, {0, 0, 0, 4}, {3, 0xff}, {3, 1}, {3, 2}, {3, 0}, {1}, {4}, {0, 0, 1, 1}} {
+			d := append(append([]byte(nil), stub...), bytes.Repeat([]byte{0x61}, 8)...)
+			out = append(out, d[:l])
+		}
+	}
+	return out
 }
 
 // ---------------------------------------------------------------- DNS responses
